@@ -103,7 +103,8 @@ def guard(rc):
         if not raises:
             rc.fail(f, f.node, f"{cname}.add_edge never rejects an edge", construct=f"{cname} no raise")
     # bulk routes
-    for rel, q in ((DAGF, "DAG.add_edges_from"), (DBN, "DynamicBayesianNetwork.add_edges_from"), ("pgmpy/models/NaiveBayes.py", "NaiveBayes.add_edges_from")):
+    for rel, q in ((DAGF, "DAG.add_edges_from"), (DBN, "DynamicBayesianNetwork.add_edges_from"), ("pgmpy/models/NaiveBayes.py", "NaiveBayes.add_edges_from"),
+                   ("pgmpy/base/UndirectedGraph.py", "UndirectedGraph.add_edges_from")):  # JunctionTree / ClusterGraph / MarkovNetwork guard their add_edge and inherit this bulk editor
         f = repo.func(rel, q)
         cs = calls_named(f, "add_edge")
         ok = cs and all(dotted(c.func.value) == "self" for c in cs)
